@@ -45,7 +45,7 @@ fn create_box_gauss(sigma: f32) -> [i32; STEPS] {
             wl -= 1;
         }
 
-        let wu = wl + 2;
+        let wu = wl.saturating_add(2);
 
         let wl_float = wl as f32;
         let m_ideal = (12.0 * sigma * sigma
